@@ -109,8 +109,9 @@ func NewValueSet(vs []Value) (*ValueSet, error) {
 
 		// TODO(mitchellh): error on duplicate names, types
 
-		// Build our tag.
-		tags := []string{""}
+		// Build our tag. The name goes into the tag, not into the field
+		// name: value names need not be valid Go identifiers.
+		tags := []string{v.Name}
 		if v.Name == "" {
 			tags = append(tags, "typeOnly")
 		}
@@ -122,7 +123,7 @@ func NewValueSet(vs []Value) (*ValueSet, error) {
 		switch v.Kind() {
 		case ValueNamed:
 			sf = append(sf, reflect.StructField{
-				Name: strings.ToUpper(v.Name),
+				Name: fmt.Sprintf("V__Name_%d", i),
 				Type: v.Type,
 				Tag:  tag,
 			})
